@@ -51,6 +51,11 @@ def _fn_item_provenance(body, s, v):
         src = strip(term_of(body, n["args"][0]))
         if v == "FromUtf8Error" and src[0] == "call" and src[1] in ("std::string::String::from_utf8",):
             return True, "map_err(ParserError::FromUtf8Error) applied directly to String::from_utf8 (strict conversion)"
+        if v == "AttrError":
+            item = src
+            if item[0] == "proj" and item[1][0] == "call" and item[1][1] == "std::iter::Iterator::next" and \
+                    "attributes::Attributes" in self_ty(item[1][3].node).get("s", ""):
+                return True, "map_err(ParserError::AttrError) applied to an item of the attribute iterator"
         return False, "ParserError::%s mapped over the error of `%s`" % (v, term_s(src)[:60])
     return False, "ParserError::%s used as a function value outside map_err" % v
 
